@@ -75,6 +75,132 @@ let decoder_line mode line =
       | None -> "none")
   | _ -> fail_line line
 
+(* ---- C07 (sequential histories of events.rs) ------------------------------------------------ *)
+let queue_ops line =
+  Stdlib.List.map
+    (fun w ->
+      match Stdlib.String.split_on_char ':' w with
+      | [ "S"; e ] -> Queue.Send (n_of_string e)
+      | [ "P"; e ] -> Queue.SendPrio (n_of_string e)
+      | [ "T"; e; d; now ] -> Queue.SendTimer (n_of_string e, n_of_string d, n_of_string now)
+      | [ "C"; dl; sq ] -> Queue.CancelTimer (n_of_string dl, n_of_string sq)
+      | [ "R"; now ] -> Queue.TryReceive (n_of_string now)
+      | [ "RT"; t; now ] -> Queue.ReceiveTimeout (n_of_string t, n_of_string now)
+      | [ "RV"; now ] -> Queue.Receive (n_of_string now)
+      | _ -> fail_line line)
+    (words line)
+
+let queue_out = function
+  | Queue.ONone -> "n"
+  | Queue.OId (dl, sq) -> Stdlib.Printf.sprintf "i:%s:%s" (string_of_n dl) (string_of_n sq)
+  | Queue.OEvent e -> "e:" ^ string_of_n e
+  | Queue.OPrio e -> "e:" ^ string_of_n e
+  | Queue.OTimer (_, e) -> "e:" ^ string_of_n e
+  | Queue.OBlocked -> "BLOCKED"
+  | Queue.OUnit -> "u"
+
+let queue_line line =
+  let _, outs = Queue.srun Queue.qinit (queue_ops line) in
+  Stdlib.String.concat " " (Stdlib.List.map queue_out outs)
+
+let queuespec_line line =
+  let _, outs = Queue.spec_run Queue.spec_init (queue_ops line) in
+  Stdlib.String.concat " " (Stdlib.List.map queue_out outs)
+
+(* ---- C06: extracted predicates on observed logs -------------------------------------------- *)
+let queuelog_line line =
+  match Stdlib.String.split_on_char '|' line with
+  | [ left; right ] -> (
+      match words left with
+      | [ "log"; n; sent ] ->
+          let parse l = if Stdlib.String.trim l = "" then [] else Stdlib.List.map n_of_string (Stdlib.String.split_on_char ',' (Stdlib.String.trim l)) in
+          let sent = parse sent and recv = parse right in
+          let same = QueueLog.same_multiset_b sent recv in
+          let rec nat_of_int i = if i <= 0 then Datatypes.O else Datatypes.S (nat_of_int (i - 1)) in
+          let fifo = QueueLog.all_fifo_b (nat_of_int (int_of_string n)) [ n_of_int 0; n_of_int 1 ] sent recv in
+          Stdlib.Printf.sprintf "%b %b" same fifo
+      | _ -> fail_line line)
+  | _ -> fail_line line
+
+(* ---- C08 / C16: labelled scenarios with a blocked receiver ----------------------------------- *)
+let z_of_opt = function Some n -> Some (z_of_n n) | None -> None
+
+let queuelabels_line line =
+  let st = ref Queue.qinit in
+  let last = ref "?" in
+  let clock = ref Z.zero in
+  let note o =
+    match o with
+    | Queue.OEvent e | Queue.OPrio e | Queue.OTimer (_, e) -> last := "e:" ^ string_of_n e
+    | Queue.ONone -> last := "n"
+    | _ -> ()
+  in
+  let fire l =
+    match Queue.step !st l with
+    | Some (s', o) -> st := s'; note o; true
+    | None -> false
+  in
+  (* let the blocked receiver take every time-based wake-up due up to instant t (None = no bound) *)
+  let rec advance (t : Z.t option) =
+    match (!st).Queue.rst with
+    | Queue.Idle -> ()
+    | Queue.Blocked (a, u) ->
+        let a = z_of_opt a and u = z_of_opt u in
+        let due x = match t with Some t -> Z.leq x t | None -> true in
+        let pick =
+          match (a, u) with
+          | Some a, Some u -> if Z.leq a u then Some (`Alarm a) else Some (`Default u)
+          | Some a, None -> Some (`Alarm a)
+          | None, Some u -> Some (`Default u)
+          | None, None -> None
+        in
+        (match pick with
+         | Some (`Alarm a) when due a ->
+             let now = Z.max a !clock in
+             clock := now;
+             if fire (Queue.LWake (Queue.AAlarm, n_of_z now)) then advance t
+         | Some (`Default u) when due u ->
+             let now = Z.max u !clock in
+             clock := now;
+             if fire (Queue.LWake (Queue.ADefault, n_of_z now)) then advance t
+         | _ -> ())
+  in
+  (* channel wake-ups: something arrived while blocked *)
+  let rec channel_wakeups () =
+    match (!st).Queue.rst with
+    | Queue.Idle -> ()
+    | Queue.Blocked _ ->
+        let s = !st in
+        let now = n_of_z !clock in
+        if s.Queue.plain <> [] then (if fire (Queue.LWake (Queue.APlain, now)) then channel_wakeups ())
+        else if s.Queue.prio <> [] then (if fire (Queue.LWake (Queue.APrio, now)) then channel_wakeups ())
+        else if s.Queue.cmds <> [] then (if fire (Queue.LWake (Queue.ACmd, now)) then channel_wakeups ())
+  in
+  let at now = let z = Z.of_string now in advance (Some z); if Z.gt z !clock then clock := z in
+  Stdlib.List.iter
+    (fun w ->
+      (match Stdlib.String.split_on_char ':' w with
+       | [ "TP"; th; e; d; now ] -> at now; ignore (fire (Queue.LTimerPrepare (n_of_string th, n_of_string e, n_of_string d, n_of_string now)))
+       | [ "TC"; th; now ] -> at now; ignore (fire (Queue.LTimerCommit (n_of_string th)))
+       | [ "S"; e; now ] -> at now; ignore (fire (Queue.LSend (n_of_string e)))
+       | [ "P"; e; now ] -> at now; ignore (fire (Queue.LSendPrio (n_of_string e)))
+       | [ "C"; dl; sq; now ] -> at now; ignore (fire (Queue.LCancel (n_of_string dl, n_of_string sq)))
+       | [ "RB"; tmo; now ] ->
+           at now;
+           ignore (fire (Queue.LRecvBegin ((if tmo = "-" then None else Some (n_of_string tmo)), n_of_string now)))
+       | _ -> fail_line line);
+      channel_wakeups ())
+    (words line);
+  (* no more actions from other threads: run the receiver until its call returns *)
+  let rec finish k =
+    if k > 0 then (
+      match (!st).Queue.rst with
+      | Queue.Idle -> ()
+      | Queue.Blocked _ -> channel_wakeups (); advance None; finish (k - 1))
+  in
+  finish 20;
+  (match (!st).Queue.rst with Queue.Idle -> !last | Queue.Blocked _ -> "BLOCKED-FOREVER")
+
 let () =
   let core = Sys.argv.(1) in
   let mode = if Stdlib.Array.length Sys.argv > 2 && Sys.argv.(2) = "wrapping" then Base.Wrapping else Base.Checked in
@@ -83,6 +209,10 @@ let () =
     | "remoteaddr" -> remoteaddr_line
     | "resid" -> resid_line mode
     | "decoder" -> decoder_line mode
+    | "queue" -> queue_line
+    | "queuespec" -> queuespec_line
+    | "queuelog" -> queuelog_line
+    | "queuelabels" -> queuelabels_line
     | _ -> failwith ("unknown core " ^ core)
   in
   (try
